@@ -131,7 +131,7 @@ func allProps() []Prop {
 	}
 	gmeNew := caseJobs("VerifH_gmenew", map[string][]int{"bad": {0, 1, 2}}, []string{"bad"})
 	gmeNotify := caseJobs("VerifH_gmenotify", map[string][]int{"flip0": {0, 1, 2}, "flip1": {0, 1, 2}}, []string{"flip0", "flip1"})
-	gmeJobs := cat(gmeAll, gmeNew, gmeNotify)
+	gmeJobs := cat(gmeAll, gmeNew, gmeNotify, one("VerifH_gmep3"))
 	gmeBounds := map[string]string{"endpoints": "3 endpoint names", "multiendpoints": "names default/read (+ one name without options, + one unknown name in RPC contexts); lists of 0..2 distinct endpoints", "initial configuration": "quick: default=[a,b], read=[b]; thorough also default=[a] alone and default=[a,b], read=[c,a]", "updates": "one fully symbolic UpdateMultiEndpoints (which MultiEndpoints are present, their lists, the default name, a dial failing at a symbolic position), then RPCs with 4 contexts, Invoke/NewStream, Close (close errors symbolic)", "timers": "recovery timeout and switching delay 0 (the timed behaviour is C13/C14)", "loop unroll": "6"}
 	gmeAssume := append(append([]string{}, commonAssume...), "*grpc.ClientConn is opaque: GetState/Close/Invoke/NewStream are harness summaries over ghost {ready, closed}; context.WithCancel is a harness summary (ghost spawn/cancel pairs stand for monitor goroutines); `go mc.monitor` is recorded, one monitor iteration is exercised by calling notify; protojson.Marshal and grpc.With* options are opaque", "'within bounded time' after a real connectivity change is the gRPC runtime's WaitForStateChange: not covered")
 	pb := "spanner_prober/prober"
@@ -164,7 +164,7 @@ func allProps() []Prop {
 		{ID: "C10", Jobs: raceJobs, Races: true, Level: "other", Assume: append(append([]string{}, commonAssume...), "accesses inside stubbed calls (gRPC runtime, logging) are invisible", "threading contract: balancer callbacks serialized; picks and completion callbacks on any goroutine"), Bounds: raceBounds},
 		{ID: "C18", Jobs: pbJobs, Panics: true, Assume: append(append([]string{}, commonAssume...), "float64 arithmetic is IEEE-754 binary64 round-to-nearest-even in the solver (QF_FPBV); float64->int64 conversion out of range is treated as unspecified", "NOT covered: the regexp engine itself (only the literals are checked), SHA-256 and CRC arithmetic, ratios max/base > 25, base >= 2^53 ns"), Bounds: pbBounds},
 		{ID: "C12", Jobs: icptJobs, Panics: true, Progress: true, Lockset: true, Assume: commonAssume, Bounds: icptBounds},
-		{ID: "C15", Jobs: gmeJobs, Assume: gmeAssume, Bounds: gmeBounds},
+		{ID: "C15", Jobs: gmeJobs, Panics: true, Assume: gmeAssume, Bounds: gmeBounds},
 		{ID: "C16", Jobs: gmeJobs, Panics: true, Assume: gmeAssume, Bounds: gmeBounds},
 		{ID: "C17", Jobs: cat(initJ, gmeQuick[6:7]), Assume: append(append([]string{}, commonAssume...), "proto.Clone is modelled as a structural deep copy of the exported fields of the message object graph", "NOT covered: the JSON parser (protojson.Unmarshal behind ParseConfig) - reflection-driven library code outside the executor; 'accepts exactly the well-formed JSON renderings and round-trips them' is not claimed"), Bounds: map[string]string{"config": "ApiConfig present or nil, ChannelPool present or nil, all scalars full-width symbolic, 0..2 method entries x 0..2 names (symbolic strings, possibly equal), affinity section present or nil per entry; a second resolver update with another symbolic configuration", "minSize": "<= 3 (at most 4 connections at start)", "loop unroll": "6"}},
 		{ID: "C11", Jobs: keysJobs, Panics: true, Assume: append(append([]string{}, commonAssume...), "package reflect is modelled by intrinsics (ValueOf, Kind, Elem, FieldByName, Len, Index, String) over the symbolic heap following its documented semantics; strings.Split/Title are applied to constants", "types outside the bounded family (embedded pointer-to-struct fields, arrays, pointer-to-pointer) and locators needing Unicode title-casing are not covered"), Bounds: keysBounds},
